@@ -40,6 +40,8 @@ not_observer_boxed_trait! {
 
 pub(crate) trait HandleUpdate {
     fn run(&mut self, node: &Node, node_update: NodeUpdateDelayed, now: StabilisationNum);
+    #[cfg(cormacrelf_incremental_rs_verif)]
+    fn verif_dump(&self) -> String;
 }
 
 pub(crate) struct OnUpdateHandler<T> {
@@ -89,6 +91,10 @@ impl<T: 'static> OnUpdateHandler<T> {
 }
 
 impl<T: 'static> HandleUpdate for OnUpdateHandler<T> {
+    #[cfg(cormacrelf_incremental_rs_verif)]
+    fn verif_dump(&self) -> String {
+        OnUpdateHandler::verif_dump(self)
+    }
     fn run(&mut self, node: &Node, node_update: NodeUpdateDelayed, now: StabilisationNum) {
         /* We only run the handler if was created in an earlier stabilization cycle.  If the
         handler was created by another on-update handler during the running of on-update
@@ -116,5 +122,16 @@ impl<T: 'static> HandleUpdate for OnUpdateHandler<T> {
                 (_, node_update) => self.really_run_downcast(node, node_update),
             }
         }
+    }
+}
+
+#[cfg(cormacrelf_incremental_rs_verif)]
+impl<T> OnUpdateHandler<T> {
+    pub(crate) fn verif_dump(&self) -> String {
+        format!(
+            "{:?}@{}",
+            self.previous_update_kind.get(),
+            self.created_at.0
+        )
     }
 }
